@@ -1,6 +1,7 @@
 SPECIFICATION Spec
 CONSTANTS
   PRMDocs <- PRMDocsCore
+  Challenges <- ChallengesCore
 INVARIANTS OnlySafeURLs UsedOnlyIfMatching PKCERequired NoScriptSchemes ExchangeOnlyIfStateAndIss PreregBoundToIssuer NoFallbackAfterRejected TokenOnlyIfChecksPassed ResultKnown
 PROPERTY NoTokenAfterFailure
 CHECK_DEADLOCK FALSE
